@@ -64,6 +64,10 @@ theorem never_cfg : ReloadId_NEVER = 0 := rfl
 /-- a failed reload is reported to the graph as "not reloaded", a panic is caught -/
 theorem failedReloadKeepsNewDeps_cfg : failedReloadKeepsNewDeps = true := by decide
 theorem reloadCatchesPanic_cfg : reloadCatchesPanic = true := by decide
+/-- `DepsGraph::insert` has the shape the graph model transcribes: a reverse edge is added for every dependency and removed for
+EVERY dependency that is no longer read, unconditionally (the `rdeps`-exactness theorems of `Lemmas/TopoGraph` are about that model;
+without this obligation an `insert` that cleans only sometimes would leave stale reverse edges, i.e. spurious reloads) -/
+theorem C06_insert_cleans_exactly_cfg : depsInsertCleansExactly = true := by decide
 
 example : ReloadId_NEVER = 0 ∧ failedReloadKeepsNewDeps = true := ⟨never_cfg, failedReloadKeepsNewDeps_cfg⟩
 
